@@ -515,17 +515,49 @@ pub fn bytes_strategy(_tier: Tier) -> BoxedStrategy<Case> {
     decoded_strategy(fuzz_domain)
 }
 
+const SEL: [u16; 3] = [0, 21846, 43691];
+/// history length of the bounded-exhaustive sub-check
+fn seq_len(tier: Tier) -> usize {
+    if tier == Tier::Quick {
+        5
+    } else {
+        6
+    }
+}
+/// alphabet of the bounded-exhaustive sub-check
+fn alphabet() -> Vec<Op> {
+    let mut a = vec![Op::AddNode(0)];
+    for x in SEL {
+        a.push(Op::RemoveNode(x));
+        a.push(Op::RemoveEdge(x));
+        for y in SEL {
+            a.push(Op::SetEdge(0, x, y));
+        }
+    }
+    a
+}
+fn enum_count(tier: Tier) -> u64 {
+    4 * (alphabet().len() as u64).pow(seq_len(tier) as u32)
+}
+fn enum_make(tier: Tier, i: u64) -> Case {
+    let a = alphabet();
+    let mut ops = vec![Op::AddNode(0), Op::AddNode(0)];
+    ops.extend(crate::util::digits(i / 4, a.len() as u64, seq_len(tier)).into_iter().map(|d| a[d].clone()));
+    Case { directed: i % 2 == 0, notzero: (i / 2) % 2 == 0, width: 1, cap: 0, ops }
+}
+
 pub fn property() -> Property {
     Property {
         id: "C04",
-        rule: "operation histories (<=60 ops quick / <=160 thorough) over MatrixGraph for Directed/Undirected x Option/NotZero null element x u8/u16/u32 indices, started from default() or with_capacity(0..=9): add_node/try_add_node/Build::add_node, remove_node (live; absent => documented panic), add_edge/update_edge/try_update_edge/add_or_update_edge/Build paths between live nodes (incl. the highest ids, so rows relocate at the next growth), remove_edge (present; absent => documented panic), try_remove_edge with arbitrary ids, clear, extend_with_edges, weight writes, clone, bulk node additions across the 4/8/16/32/64 steps and up to the u8 limit; after every step counts, has_edge/get_edge_weight/is_adjacent for all pairs below bound+2, neighbors, edges, directed in-lists, node_identifiers, node_references, edge_references and node_bound are compared with a BTreeMap model in which a new id may be any non-live id; non-trivial = the history crosses a capacity step with >= 3 edges present or reuses the id of a removed node that had edges; distinct by fingerprint of the op sequence; the *-from-bytes sub-checks feed the same interpreter with histories decoded from generated byte strings by the libFuzzer codec (all operation kinds equally likely, up to the thorough-tier length)",
+        rule: "operation histories (<=60 ops quick / <=160 thorough) over MatrixGraph for Directed/Undirected x Option/NotZero null element x u8/u16/u32 indices, started from default() or with_capacity(0..=9): add_node/try_add_node/Build::add_node, remove_node (live; absent => documented panic), add_edge/update_edge/try_update_edge/add_or_update_edge/Build paths between live nodes (incl. the highest ids, so rows relocate at the next growth), remove_edge (present; absent => documented panic), try_remove_edge with arbitrary ids, clear, extend_with_edges, weight writes, clone, bulk node additions across the 4/8/16/32/64 steps and up to the u8 limit; after every step counts, has_edge/get_edge_weight/is_adjacent for all pairs below bound+2, neighbors, edges, directed in-lists, node_identifiers, node_references, edge_references and node_bound are compared with a BTreeMap model in which a new id may be any non-live id; non-trivial = the history crosses a capacity step with >= 3 edges present or reuses the id of a removed node that had edges; distinct by fingerprint of the op sequence; the *-from-bytes sub-checks feed the same interpreter with histories decoded from generated byte strings by the libFuzzer codec (all operation kinds equally likely, up to the thorough-tier length); bounded-exhaustive sub-check: every history of 5 (thorough: 6) operations over a 16-operation alphabet (add node, remove node / remove edge / set edge at the first, middle and last position) after two initial nodes, both edge types and null representations",
         assumptions: &[
             "edge operations naming a non-existent node are generated only where the behaviour is documented consistently (remove_node/remove_edge panics, try_update_edge beyond any capacity); update_edge/add_or_update_edge on an absent in-capacity id is not generated",
             "add_edge on an existing edge (documented panic that leaves the new weight behind) is not generated",
         ],
         both_profiles: false,
         subs: vec![
-            sub_fuzz("matrix/history", 400_000, 5_000_000, strategy, run, fuzz_domain), sub("matrix/history-from-bytes", 300_000, 5_000_000, bytes_strategy, run),
+            sub_fuzz("matrix/history", 400_000, 5_000_000, strategy, run, fuzz_domain),
+            sub_enum("matrix/all-short-histories", enum_count, enum_make, run), sub("matrix/history-from-bytes", 300_000, 5_000_000, bytes_strategy, run),
             sub("matrix/u8-capacity", 30_000, 1_000_000, capacity_strategy, run),
         ],
     }
